@@ -86,10 +86,11 @@ def gen_case(rng, i, tier):
         build = [o for o in build if o[0] != "weights"]
         wv = [round_to(rng.uniform(0.5, 2.0), sc) * (-1.0 if (j % 2 or i % 12 == 2) else 1.0) for j in range(N)]
         build.append(["weights", [hx(v, sc) for v in wv]])
-    if i % 5 == 3:
+    if i % 4 == 3 and fam != "exp3o":
         # a user-chosen singular-value threshold far below every singular value of the weighted basis matrix (nothing is truncated)
-        # changes nothing about the fit — whatever else such a number may be used for inside
-        build.append(["eps", hx([1e-4, -1e-3, 1e-5][i % 3] if sc == "f64" else [1e-4, -1e-3][i % 2], sc)])
+        # changes nothing about the fit — whatever else such a number may be used for inside, and however many samples there are
+        # (the threshold is absolute: it is not multiplied by the size of the problem or by the largest singular value)
+        build.append(["eps", hx([2e-3, -1e-3, 1e-4][i % 3] if sc == "f64" else [2e-3, -1e-3][i % 2], sc)])
     if not spec.get("builder_made") and i % 3 == 0:
         # a hand-written model that computes from what set_params stored (the documented place for caching): the problem builder
         # must hand it the initial guess through set_params before anything is evaluated
